@@ -25,7 +25,7 @@ import vlib
 PROPERTY = "C04"
 LEVEL = "model_checking"
 
-MAX_PER_CLASS = 3   # replay files written per violation class (all are counted)
+MAX_PER_CLASS = 2   # replay files written per violation class (all are counted)
 
 
 def _cfg_with_seed(ctx, name, out):
@@ -99,7 +99,7 @@ def _report_trace_bad(ctx, res, events):
     for b in res["bad"]:
         ev = byid[b["id"]]
         cls = _trace_class(b["kind"], b["exp"], ev["obs"])
-        if not _limited(ctx, cls):
+        if not _limited(ctx, "trace:" + cls):
             continue
         payload_ev = {k: ev[k] for k in ("id", "kind", "arrow", "items", "opts", "formbase")}
         ctx.violation({"kind": "line-trace", "event": payload_ev, "source": _s(ev["source"])},
@@ -118,7 +118,7 @@ def _replay_rows(ctx, rows, batch=100, classes=True):
     stats = json.loads(p.stdout.strip().splitlines()[-1])
     diffs = vlib.read_ndjson(ctx.path("diffs.ndjson"))
     for d in diffs:
-        if not _limited(ctx, d["what"]):
+        if not _limited(ctx, "replay:" + d["what"]):
             continue
         ctx.violation({"kind": "line-replay", "case": d["case"], "source": d["source"]},
                       "script element %r: the specification prescribes %s; the library returned %s"
